@@ -186,6 +186,24 @@ def same_virtual_names():
     return out
 
 
+def abandoned_logins():
+    """One session attaches itself to a limited account and goes away without completing the login (disconnect, QUIT, wrong
+    password, reset, USER of another account); another session of that account then logs in as if the first had never been."""
+    out = []
+    for acct, pw in (("u1", "pw1"), ("u2", None), ("u3", None)):
+        for how in ([["vanish", 1]], [["send", 1, "QUIT"]], [["send", 1, "PASS nope"], ["vanish", 1]], [["vanish", 1, "reset"]], [["send", 1, "USER anonymous"]],
+                    [["send", 1, "PASS nope"], ["send", 1, "QUIT"]]):
+            for rounds in (1, 2):
+                st = []
+                for _ in range(rounds):
+                    st += [["connect", 1], ["send", 1, "USER " + acct]] + how
+                    if how[-1][0] == "send" and how[-1][2].startswith("USER"):
+                        st += [["send", 1, "QUIT"]]
+                st += [["connect", 2], ["send", 2, "USER " + acct]] + ([["send", 2, "PASS " + pw]] if pw else []) + [["send", 2, "PWD"], ["send", 2, "MLST f"]]
+                out.append(st)
+    return out
+
+
 def dev_cfg(pool):
     return gen.std_cfg(ns=3)
 
@@ -225,6 +243,8 @@ def run(tier, seed):
     su = same_user()
     corecheck.validate(chk, cfg, gen.STD_TREE, su, label="same-user")
     corecheck.validate(chk, gen.std_cfg(ns=3, backend="async"), gen.STD_TREE, su, label="same-user:async")
+    from checks import c10
+    corecheck.validate(chk, gen.std_cfg(ns=2, users=c10.USERS), gen.STD_TREE, abandoned_logins(), label="abandoned-logins")
     sv = same_virtual_names()
     for b in ("memory", "path"):
         corecheck.validate(chk, gen.std_cfg(ns=2, users=TWIN_USERS, backend=b), TWIN_TREE, sv if tier != "quick" else sv[::2], label="same-virtual-names:" + b)
